@@ -87,6 +87,23 @@ type c15flaky struct {
 	s    *simstore.Store
 	down *bool
 	hic  *c15hiccup
+	node int
+	dels *c15delLog
+}
+
+// c15delLog records, for every Delete a node issues, the stamps right before
+// the call and right after it returned: the backend is instrumented at
+// statement granularity, so the removal takes effect somewhere inside that
+// interval, possibly long after the call was issued.
+type c15delLog struct {
+	mu   sync.Mutex
+	recs []c15del
+}
+
+type c15del struct {
+	node       int
+	key        string
+	start, end int64
 }
 
 // c15hiccup is a brief store fault on one node's connection: after skip
@@ -99,6 +116,8 @@ type c15hiccup struct {
 	fired      bool
 	firedAt    time.Duration
 	firedStamp int64
+	key        string // key of the failed Set
+	keyPresent bool   // the shared backend (read directly, not through a node handle) still held that key when the Set failed
 }
 
 var errC15Hiccup = errors.New("c15: store operation timed out (single hiccup)")
@@ -120,6 +139,8 @@ func (f c15flaky) Set(k string, v any, ttl time.Duration) error {
 	if h := f.hic; h != nil && h.armed && !h.fired {
 		if h.seen == h.skip {
 			h.fired, h.firedAt, h.firedStamp = true, f.w.Now(), f.w.Stamp()
+			h.key = k
+			h.keyPresent, _ = f.s.Inner.Exists(k)
 			f.w.Fault("store.hiccup")
 			if h.hang > 0 {
 				f.w.Sleep(h.hang)
@@ -144,7 +165,19 @@ func (f c15flaky) Delete(k string) error {
 		f.w.Yield("outage.Delete")
 		return err
 	}
-	return f.s.Delete(k)
+	if f.dels == nil {
+		return f.s.Delete(k)
+	}
+	rec := c15del{node: f.node, key: k, start: f.w.Stamp(), end: c15never}
+	f.dels.mu.Lock()
+	f.dels.recs = append(f.dels.recs, rec)
+	i := len(f.dels.recs) - 1
+	f.dels.mu.Unlock()
+	err := f.s.Delete(k)
+	f.dels.mu.Lock()
+	f.dels.recs[i].end = f.w.Stamp()
+	f.dels.mu.Unlock()
+	return err
 }
 func (f c15flaky) Exists(k string) (bool, error) {
 	if err := f.chk(); err != nil {
@@ -200,12 +233,13 @@ type c15cluster struct {
 	handles []*simstore.Store // per node: fault/yield wrapper onto the backend
 	down    []*bool           // per node outage switch
 	hics    []*c15hiccup      // per node single-operation hiccup (disarmed unless a mode arms it)
+	dels    *c15delLog        // every Delete issued by any node, with call/return stamps
 	views   []types.Storage   // per node: what the node's components are constructed with
 	closers []func()
 }
 
 func c15NewCluster(w *simrt.World, flavour string, nodes int) *c15cluster {
-	cl := &c15cluster{w: w, flavour: flavour}
+	cl := &c15cluster{w: w, flavour: flavour, dels: &c15delLog{}}
 	var root *simstore.Store
 	if flavour == "cas-redis" {
 		cl.redis = simstore.NewRedis(w)
@@ -229,7 +263,7 @@ func c15NewCluster(w *simrt.World, flavour string, nodes int) *c15cluster {
 		cl.down = append(cl.down, d)
 		hc := &c15hiccup{}
 		cl.hics = append(cl.hics, hc)
-		fl := c15flaky{w: w, s: h, down: d, hic: hc}
+		fl := c15flaky{w: w, s: h, down: d, hic: hc, node: n, dels: cl.dels}
 		var view types.Storage
 		switch flavour {
 		case "cas-memory", "cas-redis":
@@ -1104,12 +1138,46 @@ func c15RunNodeAlloc(w *simrt.World, tier string) {
 			if outage && h1.nodeIdx == outNode && outLen > 60*time.Second && outFrom > 0 && outFrom < h2.retTime {
 				cls = "duplicate-after-lease-lapse:" + flavour
 			}
-			// the holder lost its slot although its store connection failed for ONE operation only and the two
-			// allocations did not race: the lease did not survive a single missed renewal
-			if hiccup && h1.nodeIdx == hicNode && cl.hics[hicNode].fired && cl.hics[hicNode].firedStamp < h2.retStamp &&
-				!(h1.callStamp < h2.retStamp && h2.callStamp < h1.retStamp) {
+			// Did somebody else's Delete of this slot's key possibly land after h1 began to allocate? h1 has not
+			// started releasing, so any such Delete belongs to an earlier holder of the slot whose Release
+			// (an unconditional delete by key) was still in flight: h1's claim was wiped by a party of an
+			// earlier double holding, whatever else happened to h1 afterwards.
+			slotKey := node.NodeIDKeyPrefix + h1.id
+			var stale *c15del
+			cl.dels.mu.Lock()
+			for i := range cl.dels.recs {
+				d := &cl.dels.recs[i]
+				if d.key == slotKey && d.end > h1.callStamp && d.start < h2.retStamp {
+					stale = d
+					break
+				}
+			}
+			cl.dels.mu.Unlock()
+			hc := cl.hics[0]
+			if hiccup {
+				hc = cl.hics[hicNode]
+			}
+			if cls != "duplicate:"+flavour {
+				// already explained by the holder's own long outage (lease lapse)
+			} else if stale != nil {
+				// class of the double holding the deleting node took part in
+				root := "duplicate:" + flavour
+				if outage && stale.node == outNode && outLen > 60*time.Second {
+					root = "duplicate-after-lease-lapse:" + flavour
+				}
+				for _, h0 := range holds {
+					if c0, ok := party[h0]; ok && h0.id == h1.id && h0.nodeIdx == stale.node {
+						root = c0
+					}
+				}
+				cls = root
+				note = fmt.Sprintf(" [consequence: a Delete of this slot's key issued by node%d (stamps %d-%d, the Release of an earlier holder) can have landed after %s began to allocate]", stale.node, stale.start, stale.end, h1.holder)
+			} else if hiccup && h1.nodeIdx == hicNode && hc.fired && hc.firedStamp > h1.retStamp && hc.firedStamp < h2.retStamp &&
+				hc.key == slotKey && hc.keyPresent && !(h1.callStamp < h2.retStamp && h2.callStamp < h1.retStamp) {
+				// the holder lost its slot although its claim was still in the shared store when ONE of its
+				// renewals failed, nobody else deleted the key, and the two allocations did not race
 				cls = "duplicate-after-single-failed-renewal:" + flavour
-				note = fmt.Sprintf(" [one Set of %s failed at t=%v after blocking %v; nothing else was wrong with its store connection]", h1.holder, cl.hics[hicNode].firedAt, hicHang)
+				note = fmt.Sprintf(" [one renewal of %s failed at t=%v after blocking %v while its claim was still present in the store; no other node deleted the key; nothing else was wrong with its store connection]", h1.holder, hc.firedAt, hicHang)
 			}
 			// Root cause attribution: once two holders share a slot, each one's Release (an unconditional
 			// Delete) and heartbeat (an unconditional Set) act on the other's key, so a later overlap that
